@@ -117,10 +117,10 @@ type translator struct {
 	structs map[string]*structInfo
 	sorder  []string
 	funcs   map[string]*funcInfo
-	forder  []string          // every function in the file, source order
-	want    map[string]bool   // requested keys
-	emitted []*funcInfo       // dependency order
-	errs    map[string]bool   // error-class constants referenced
+	forder  []string        // every function in the file, source order
+	want    map[string]bool // requested keys
+	emitted []*funcInfo     // dependency order
+	errs    map[string]bool // error-class constants referenced
 }
 
 func (t *translator) refuse(n ast.Node, format string, args ...interface{}) {
